@@ -313,6 +313,36 @@ def majority_world(with_known):
     return w
 
 
+def undecided_sites_world(variant):
+    """novel spliced isoforms ANTISENSE to an annotated '+' gene P and overlapping it, whose splice sites do not decide the strand -
+       locus 0: both introns non-canonical on both strands; locus 1: one intron of P (GT-AG) and one CT-AC intron (a 1:1 tie) - and whose
+       reads are '-' reads with polyT heads: the tails are the only deciding evidence, the models are '-' transcripts.
+       variant 1: the reads of the annotated gene are present as well"""
+    from vlib import worlds as W
+    w = W.base_world(1, 12000)
+    loci = []
+    w["sites"] = []
+    for li, b in enumerate((2000, 7000)):
+        P = [[b + 1, b + 200], [b + 501, b + 700], [b + 1001, b + 1200], [b + 1501, b + 1700]]
+        w["genes"].append({"id": "P%d" % li, "chr": "chr1", "strand": "+", "transcripts": [{"id": "TP%d" % li, "exons": P}]})
+        w["sites"] += [["chr1", P[i][1] + 1, P[i + 1][0] - 1, "+"] for i in range(3)]
+        if li == 0:
+            nov = [[b + 251, b + 400], [b + 751, b + 900], [b + 1251, b + 1400]]          # inside P's introns, sites 'nc'
+            w["sites"] += [["chr1", nov[0][1] + 1, nov[1][0] - 1, "nc"], ["chr1", nov[1][1] + 1, nov[2][0] - 1, "nc"]]
+            kind = "nc"
+        else:
+            nov = [P[0], P[1], [b + 851, b + 950]]                                        # P's first intron (GT-AG) + a CT-AC intron
+            w["sites"] += [["chr1", P[1][1] + 1, b + 850, "-"]]
+            kind = "tie"
+        for i in range(8):
+            w["reads"].append(W.read_of("und%d_%d" % (li, i), "chr1", nov, strand="-"))
+        if variant == 1:
+            for i in range(3):
+                w["reads"].append(W.read_of("kp%d_%d" % (li, i), "chr1", P, strand="+"))
+        loci.append(("undecided%d" % li, "chr1", b - 500, kind, "-"))
+    return w, loci
+
+
 def islands_world(variant):
     """a 6-exon '+' gene (all introns GT-AG) whose reads form two disjoint islands (exons 1-3 and exons 4-6): the reference window of a
        region is the island, annotated introns of a reported known isoform lie outside it; island B also carries a novel isoform
@@ -405,6 +435,9 @@ def pipeline_case(args):
     elif kind == "antinovel":
         w, loci = antisense_novel_world(param[0])
         extra += ["--report_canonical", param[1], "--model_construction_strategy", "all"]
+    elif kind == "undecided":
+        w, loci = undecided_sites_world(param[0])
+        extra += ["--report_canonical", "all", "--model_construction_strategy", "all", "--polya_requirement", param[1]]
     elif kind == "shared":
         w = None
     elif kind == "islands":
@@ -497,7 +530,10 @@ def pipeline_case(args):
                                 errs.append(("novel-strand-vs-sites", "%s locus %s: strand %s but splice sites imply %s" %
                                              (tid, name, t["strand"], site_strand)))
                         else:
-                            if t["strand"] in "+-" and t["strand"] != tail:
+                            if kind == "undecided" and t["strand"] != tail:
+                                errs.append(("novel-strand-vs-polya", "%s locus %s: strand %s, the splice sites are uninformative and every read has "
+                                             "a poly%s tail: %s" % (tid, name, t["strand"], "T" if tail == "-" else "A", tail)))
+                            elif t["strand"] in "+-" and t["strand"] != tail:
                                 errs.append(("novel-strand-vs-polya", "%s locus %s: strand %s but only evidence (polyA/T) implies %s" %
                                              (tid, name, t["strand"], tail)))
     # differential oracle (history independence): strands / Canonical flags of one chromosome must not depend on what was
@@ -553,7 +589,7 @@ def run(ctx):
     jobs = [("anti", o, ctx.scratch) for o in orders] + [("antinovel", (v, lvl), ctx.scratch) for v in (0, 1, 2) for lvl in ("all", "auto")] + \
         [("islands", (v, lvl), ctx.scratch) for v in (0, 1, 2, 3, 4) for lvl in ("auto", "all")] + \
         [("mixed", (n, lvl), ctx.scratch) for n in ((2,) if quick else (1, 2, 3)) for lvl in ("auto", "all")] + \
-        [("shared", (mf, wk, rf, lvl), ctx.scratch) for mf in (0, 1, 2) for wk in (0, 1) for rf in (0, 1) for lvl in ("all", "auto")] + [("novel", lvl + sw, ctx.scratch) for lvl in ("auto", "only_canonical", "only_stranded", "all") for sw in ("", "/swap", "/nopolya")]
+        [("undecided", (v, pr), ctx.scratch) for v in (0, 1) for pr in ("never", "auto")] + [("shared", (mf, wk, rf, lvl), ctx.scratch) for mf in (0, 1, 2) for wk in (0, 1) for rf in (0, 1) for lvl in ("all", "auto")] + [("novel", lvl + sw, ctx.scratch) for lvl in ("auto", "only_canonical", "only_stranded", "all") for sw in ("", "/swap", "/nopolya")]
     nchecked = 0
     for kind, param, nc, errs in core.pmap(pipeline_case, jobs):
         nchecked += nc
